@@ -81,6 +81,7 @@ class Analysis:
         self.entry = entry
         self.heap = HeapDict()  # (node, label) -> set(nodes)
         self.shallow: dict = {}  # node -> set(original nodes)
+        self.definite: dict = {}  # dict-literal node -> constant keys that come after every dynamic key of the literal
         self.lazy: set = set()  # nodes whose fields materialise lazily (P, S, deep copies)
         self.writes: list[Write] = []
         self.unknown_calls: list = []
@@ -129,7 +130,12 @@ class Analysis:
             if n[0] == "IMM" or n in _seen:
                 continue
             _seen.add(n)
+            definite = label in self.definite.get(n, ())
             for l, vs in list(self.heap.idx.get(n, {}).items()):
+                if definite:
+                    if l == label:
+                        out |= vs
+                    continue
                 if l == label or l == "*" or label == "*" or (isinstance(l, tuple) and l[0] == "k") or (isinstance(label, tuple) and label[0] == "k"):
                     out |= vs
             if self.is_lazy(n):
@@ -149,6 +155,8 @@ class Analysis:
             if n[0] == "IMM":
                 continue
             self.writes.append(Write(n, label, frozenset(values), loc, how, fn))
+            if n in self.definite and not isinstance(label, str) or label == "*":
+                self.definite.pop(n, None)
             if values and label not in IMMUTABLE_FIELDS:
                 self.heap.setdefault((n, label), set()).update(values)
 
@@ -461,15 +469,24 @@ class Analysis:
             return {n}
         if isinstance(e, ast.Dict):
             n = self.fresh(f"{fi.short}:{e.lineno}:{e.col_offset}:dict")
+            definite = set()
             for k, x in zip(e.keys, e.values):
                 v = self.eval(x, env, ctx)
                 if k is None:
                     self.shallow.setdefault(n, set()).update(v)
+                    definite = set()
                     continue
                 self.eval(k, env, ctx)
-                lab = k.value if isinstance(k, ast.Constant) and isinstance(k.value, str) else "*"
+                if isinstance(k, ast.Constant) and isinstance(k.value, str):
+                    lab = k.value
+                    definite.add(lab)
+                else:
+                    lab = self.label(k, env, ctx)
+                    definite = set()
                 if v:
                     self.heap.setdefault((n, lab), set()).update(v)
+            if definite and n not in self.heap.idx or definite:
+                self.definite[n] = definite
             return {n}
         if isinstance(e, (ast.ListComp, ast.SetComp, ast.GeneratorExp, ast.DictComp)):
             inner = {k: set(v) for k, v in env.items()}
